@@ -175,8 +175,13 @@ def doc_events(methods, pred):
     from pjrpc.server.specs import openapi, openrpc
     from pjrpc.server.specs.extractors import pydantic as pex
     out = []
+
+    def m(decoy_a: int, decoy_b: str = 'x'):       # another function exposed under the same name elsewhere
+        pass
+    decoy = [pjrpc.server.Method(m, 'm')]
     try:
         oa = openapi.OpenAPI(info=openapi.Info(title='t', version='1'), schema_extractor=pex.PydanticSchemaExtractor(exclude_param=pred))
+        oa.schema(path='', methods_map={'': decoy})       # the same specification object documented the look-alike before
         doc = json.loads(json.dumps(oa.schema(path='', methods_map={'': methods}), cls=specs.JSONEncoder))
         item = [v for k, v in doc['paths'].items() if k.endswith('#m')][0]
         schema = _resolve(doc, item['post']['requestBody']['content']['application/json']['schema'])
@@ -186,6 +191,7 @@ def doc_events(methods, pred):
         out.append({'ev': 'DocFail', 'kind': 'openapi', 'exc': type(e).__name__})
     try:
         orpc = openrpc.OpenRPC(info=openrpc.Info(title='t', version='1'), schema_extractor=pex.PydanticSchemaExtractor(exclude_param=pred))
+        orpc.schema(path='', methods_map={'': decoy})
         doc = json.loads(json.dumps(orpc.schema(path='', methods_map={'': methods}), cls=specs.JSONEncoder))
         meth = [x for x in doc['methods'] if x['name'] == 'm'][0]
         out.append({'ev': 'Doc', 'kind': 'openrpc', 'names': sorted(p['name'] for p in meth['params']),
